@@ -1,5 +1,6 @@
 import PicoVerif.Model.Compress
 import PicoVerif.Spec.Stream
+import PicoVerif.Lemmas.C05
 /-! C05 — code compression is lossless and emits only well-formed `:c:` streams. -/
 namespace Pico.C05
 open Pico.Compress
@@ -11,7 +12,7 @@ theorem table_ok : Gen.charTable.length = 60 ∧ tableLen = 60 ∧ maxHistLen = 
 /-- a literal's table index decodes to that literal: `literalIndex b = i ≠ 0 → table[i] = b`, and `i < 60` -/
 theorem literal_index_ok (b : UInt8) :
     literalIndex b < 60 ∧ (literalIndex b ≠ 0 → Gen.charTable[literalIndex b]? = some b) := by
-  sorry
+  exact literalIndex_spec b
 
 /-- **C05.find_block_spec**: the block `_find_repeatable_block` returns is a real repeat inside the window. -/
 theorem find_block_spec (dat : Array UInt8) (pos : Nat) (hpos : pos < dat.size) :
@@ -19,15 +20,15 @@ theorem find_block_spec (dat : Array UInt8) (pos : Nat) (hpos : pos < dat.size) 
     r.1 ≤ 17 ∧ pos + r.1 ≤ dat.size ∧
     (r.1 ≥ 3 → 1 ≤ r.2 ∧ r.2 ≤ min pos 3120 ∧ r.1 ≤ r.2.toNat ∧
       ∀ k, k < r.1 → dat.getD (pos - r.2.toNat + k) 0 = dat.getD (pos + k) 0) := by
-  sorry
+  exact findBlock_spec dat pos hpos
 
 /-- **C05.compress_wf**: every stream the producer emits is well formed by the format description. -/
 theorem compress_wf (t : Bytes) : Spec.wellFormed (compress t) = true := by
-  sorry
+  simp [Spec.wellFormed, refDecode_compress]
 
 /-- **C05.ref_roundtrip**: the independent decoder recovers the compressed text (with PICO-8's suffix). -/
 theorem ref_roundtrip (t : Bytes) : Spec.refDecode (compress t) = some (withSuffix t) := by
-  sorry
+  exact refDecode_compress t
 
 /-- the decoder loop run on a stream placed after an 8-byte header, up to `n` output bytes -/
 def decodeBody (s : Bytes) (n : Nat) : Except Err Bytes :=
@@ -40,7 +41,15 @@ def decodeBody (s : Bytes) (n : Nat) : Except Err Bytes :=
 blocks included — picotool's decoder loop returns the reference decoder's output, cut at `n` bytes. -/
 theorem impl_agrees (s full : Bytes) (n : Nat) (h : Spec.refDecode s = some full) :
     decodeBody s n = .ok (full.take n) := by
-  sorry
+  unfold Spec.refDecode at h
+  cases hr : Spec.refDecodeAux s #[] with
+  | none => simp [hr] at h
+  | some fa =>
+    simp only [hr, Option.map_some, Option.some.injEq] at h
+    subst h
+    obtain ⟨st, hst, hout⟩ := decodeLoop_body s fa n hr
+    unfold decodeBody
+    simp only [hst, hout]
 
 /-- what the proof of the end-to-end round trip needs from the text: the length fits the 16-bit header, and
 the text does not itself end with one of PICO-8's compatibility suffixes (the decoder strips those: the
@@ -51,7 +60,7 @@ def Guard (t : Bytes) : Prop :=
 /-- **C05.area_roundtrip**: decoding the code area picotool writes (header and stream) returns the text. -/
 theorem area_roundtrip (t : Bytes) (h : Guard t) (pad : Bytes) :
     ∃ sz, decompress (header t ++ compress t ++ pad) = .ok (t.length, t, sz) := by
-  sorry
+  exact decompress_area t h.1 h.2.1 h.2.2 pad
 
 /-- non-vacuity / regression anchors -/
 example : Spec.refDecode [Gen.charTable.idxOf 97 |>.toUInt8, 0x3c, 0x31] = some [97, 97, 97, 97, 97, 97] := by decide +kernel
